@@ -4,7 +4,7 @@
    hand models that are run against the real code on every run. *)
 From Coq Require Import ZArith List Bool.
 From MomoCommon Require Import GenPrelude.
-From C09 Require Gen_UIntMath Gen_MemPoolConst Gen_MemPool PoolLayout PoolLinks PoolArith PoolLinksProofs PoolModel PoolConc PoolConcProofs PoolInv.
+From C09 Require Gen_UIntMath Gen_MemPoolConst Gen_MemPool PoolLayout PoolLinks PoolArith PoolLinksProofs PoolModel PoolConc PoolConcProofs PoolInv PoolAddr.
 Import ListNotations.
 Local Open Scope Z_scope.
 
@@ -73,6 +73,35 @@ Theorem C09_block1_layout : forall B A buffer,
     (forall ld, ld (block + B) = block - buffer -> Gen_MemPool.pvDeleteBlock1 ld B A block = (block - buffer, buffer)).
 Proof. exact PoolArith.block1_layout_thm. Qed.
 Print Assumptions C09_block1_layout.
+
+(* C09_block1_dispatch_aligned: the three-way choice of Allocate / Deallocate for a single-block pool (addend 0 -> the manager
+   block itself, else pvNewBlock1 / pvDeleteBlock1): for EVERY legal alignment 1..1024, power of two or not, and every manager
+   address that is a multiple of maxAllocAlignment = 16, the returned block is a multiple of blockAlignment, lies inside the
+   bytes requested from the manager, and Deallocate gives back exactly that manager block. *)
+Theorem C09_block1_dispatch_aligned : forall B A begin,
+  1 <= A <= 1024 -> 0 < B < 2 ^ 62 -> 0 < begin -> begin mod 16 = 0 -> begin + B + A + 2 < 2 ^ 64 ->
+  exists block size,
+    PoolLayout.alloc1 B A begin = Ok (block, size) /\
+    block mod A = 0 /\ begin <= block /\ block + B <= begin + size /\
+    (forall ld, ld (block + B) = block - begin -> PoolLayout.dealloc1 ld B A block = (begin, size)).
+Proof. exact PoolArith.block1_dispatch_aligned. Qed.
+Print Assumptions C09_block1_dispatch_aligned.
+
+(* the choice mirrored in PoolLayout.alloc1/dealloc1 is exactly the machine-translated three-way dispatch of
+   pvDeleteBlock(void* ) (regenerated from the header on every run; a changed dispatch condition breaks this proof or the
+   translation itself) *)
+Theorem C09_dispatch_is_generated : forall B A blk ld,
+  (Gen_MemPool.pvDeleteBlock_dispatch 1 B A blk = 2 /\ PoolLayout.dealloc1 ld B A blk = (blk, Gen_MemPool.pvGetBufferSize0 B A)) \/
+  (Gen_MemPool.pvDeleteBlock_dispatch 1 B A blk = 3 /\
+   PoolLayout.dealloc1 ld B A blk = (snd (Gen_MemPool.pvDeleteBlock1 ld B A blk), Gen_MemPool.pvGetBufferSize1 B A)).
+Proof. exact PoolArith.dispatch_single_block. Qed.
+Print Assumptions C09_dispatch_is_generated.
+
+(* the condition the code relies on: the manager block is used directly exactly for the alignments that divide 16 *)
+Theorem C09_addend_zero_iff : forall A, 1 <= A <= 1024 ->
+  (PoolArith.addend A = 0 <-> A = 1 \/ A = 2 \/ A = 4 \/ A = 8 \/ A = 16).
+Proof. exact PoolArith.addend_zero_iff. Qed.
+Print Assumptions C09_addend_zero_iff.
 
 (* the one-byte offset pvNewBlock1 used before fix bf4257f fails its assertion for legal parameters (alignment 512,
    manager address 16): the theorem above is not vacuous and distinguishes the two versions. *)
@@ -253,10 +282,11 @@ Theorem C09_cache_bounded_all_histories : forall C CF uc ops, 1 <= CF ->
 Proof. exact PoolConcProofs.cache_bounded_all_histories. Qed.
 Print Assumptions C09_cache_bounded_all_histories.
 
-(* ===== the invariant of the concrete model (PoolInv.v).  STATUS: the invariant is defined and holds initially; its
-   preservation is proved for the ghost/cache steps of Allocate/Deallocate (below), NOT yet for take / attach_new / push+move /
-   drop / MergeFrom / DeallocateAll / DeallocateIf, so the consequences are stated for every state that satisfies the
-   invariant, not yet for every history (see NOTES.md). ===== *)
+(* ===== the whole-history invariant of the concrete model (PoolInv.v): global part G (every chain duplicate-free and in
+   range, returned ids < fresh) + per pool Pl (buffer lists duplicate-free, ids fresh and not returned, every buffer of lfree
+   has a free block, every buffer of lfull has none, head null => no buffers, live ++ cache duplicate-free, every live/cached
+   block in range, NOT in its buffer's chain and owned by this pool's buffers, allocCount = number of live blocks) + the two
+   pools' buffers disjoint.  Jq q hole: seen from pool q, `hole` = the block in transit inside an operation. ===== *)
 Theorem C09_inv_holds_initially : forall C, PoolInv.J C PoolConc.empty_world.
 Proof. exact PoolInv.J_empty. Qed.
 Print Assumptions C09_inv_holds_initially.
@@ -303,3 +333,77 @@ Theorem C09_inv_full_count_no_live : forall C q w b,
   forall bk, In bk (PoolInv.lb (PoolConc.getp w q)) \/ In bk (PoolInv.lb (PoolConc.getp w (negb q))) -> fst bk <> b.
 Proof. exact PoolInv.full_count_no_live. Qed.
 Print Assumptions C09_inv_full_count_no_live.
+
+(* preservation by every mutating step of the model (each mirrors a group of source lines, see PoolConc.v) *)
+Theorem C09_inv_attach_new : forall C, 1 <= C -> forall q w, PoolInv.Jq C q None w -> PoolInv.Jq C q None (PoolConc.attach_new C w q).
+Proof. exact PoolInv.attach_new_J. Qed.
+Print Assumptions C09_inv_attach_new.
+
+Theorem C09_inv_pvNewBlock : forall C, 1 <= C -> forall q w, PoolInv.Jq C q None w ->
+  PoolInv.Jq C q (Some (snd (PoolConc.pvNewBlock C w q))) (fst (PoolConc.pvNewBlock C w q)).
+Proof. exact PoolInv.pvNewBlock_J. Qed.
+Print Assumptions C09_inv_pvNewBlock.
+
+Theorem C09_inv_pvDeleteBlock : forall C, 1 <= C -> forall q w bk, PoolInv.Jq C q (Some bk) w -> PoolInv.Jq C q None (PoolConc.pvDeleteBlock C w q bk).
+Proof. exact PoolInv.pvDeleteBlock_J. Qed.
+Print Assumptions C09_inv_pvDeleteBlock.
+
+Theorem C09_inv_flush : forall C, 1 <= C -> forall q w, PoolInv.Jq C q None w -> PoolInv.Jq C q None (PoolConc.flush C w q).
+Proof. exact PoolInv.flush_J. Qed.
+Print Assumptions C09_inv_flush.
+
+Theorem C09_inv_MergeFrom : forall C, 1 <= C -> forall uc d w,
+  (uc = false -> PoolConc.cache (PoolConc.getp w (negb d)) = []) -> PoolInv.Jq C d None w -> PoolInv.Jq C d None (PoolConc.MergeFrom C uc w d).
+Proof. exact PoolInv.MergeFrom_J. Qed.
+Print Assumptions C09_inv_MergeFrom.
+
+(* THE INVARIANT HOLDS AFTER EVERY HISTORY of Allocate / Deallocate (of a block that is live in that pool; other Deallocates
+   are outside the pool's contract and ignored) / MergeFrom on both pools, for every blockCount >= 1, cache size and
+   pvUseCache value. *)
+Theorem C09_inv_all_histories : forall C, 1 <= C -> forall CF uc ops,
+  PoolInv.J C (PoolInv.grun C CF uc ops) /\ PoolInv.nocache uc (PoolInv.grun C CF uc ops).
+Proof. exact PoolInv.J_all_histories. Qed.
+Print Assumptions C09_inv_all_histories.
+
+(* (a1) NO BLOCK IS EVER HANDED OUT TWICE: after every such history the block the next Allocate of either pool returns is live
+   in neither pool. *)
+Theorem C09_no_double_hand_out_all_histories : forall C, 1 <= C -> forall CF uc ops p,
+  let w := PoolInv.grun C CF uc ops in let bk := snd (PoolConc.Allocate C uc w p) in
+  ~ In bk (PoolConc.live (PoolConc.getp w p)) /\ ~ In bk (PoolConc.live (PoolConc.getp w (negb p))).
+Proof. exact PoolInv.no_double_hand_out. Qed.
+Print Assumptions C09_no_double_hand_out_all_histories.
+
+(* (a2) A BUFFER IS NEVER RETURNED TO THE MEMORY MANAGER WHILE ONE OF ITS BLOCKS IS LIVE OR CACHED, and returned buffer ids are
+   never reused: after every such history. *)
+Theorem C09_never_returned_while_live_all_histories : forall C, 1 <= C -> forall CF uc ops b,
+  let w := PoolInv.grun C CF uc ops in In b (PoolConc.returned w) ->
+  b < PoolConc.fresh w /\
+  forall p bk, In bk (PoolConc.live (PoolConc.getp w p) ++ PoolConc.cache (PoolConc.getp w p)) -> fst bk <> b.
+Proof. exact PoolInv.never_returned_while_live. Qed.
+Print Assumptions C09_never_returned_while_live_all_histories.
+
+(* allocCount (GetAllocateCount) equals the number of live blocks and the live blocks are pairwise different, after every history *)
+Theorem C09_count_and_distinct_all_histories : forall C, 1 <= C -> forall CF uc ops p,
+  let w := PoolInv.grun C CF uc ops in
+  PoolConc.acount (PoolConc.getp w p) = PoolConc.lenz (PoolConc.live (PoolConc.getp w p)) /\ NoDup (PoolConc.live (PoolConc.getp w p)).
+Proof. exact PoolInv.count_and_distinct. Qed.
+Print Assumptions C09_count_and_distinct_all_histories.
+
+(* (d) the property's first sentence for the code-level model: after EVERY history, two different live blocks (same pool or
+   different pools) occupy disjoint byte ranges, each aligned to blockAlignment and inside the manager block of its buffer,
+   which has not been returned.  addr_of = pvGetBlock(buffer pointer, firstBlockIndex + relative index) with the pointer and
+   first index pvNewBuffer computes from the manager address beg(buffer).  Assumes legal parameters, manager addresses the
+   manager may return, and non-overlapping manager blocks for different not-yet-returned buffers. *)
+Theorem C09_live_blocks_disjoint_aligned_inside_all_histories : forall C B A CF uc beg ops,
+  PoolArith.legal C B A ->
+  let size := Gen_MemPool.pvGetBufferSize C B A in
+  let w := PoolInv.grun C CF uc ops in
+  (forall b, PoolArith.begin_ok A size (beg b)) ->
+  (forall b b', b <> b' -> ~ In b (PoolConc.returned w) -> ~ In b' (PoolConc.returned w) ->
+     beg b + size <= beg b' \/ beg b' + size <= beg b) ->
+  forall p p' bk bk', In bk (PoolConc.live (PoolConc.getp w p)) -> In bk' (PoolConc.live (PoolConc.getp w p')) -> bk <> bk' ->
+  let a := PoolAddr.addr_of C B A beg bk in let a' := PoolAddr.addr_of C B A beg bk' in
+  ~ In (fst bk) (PoolConc.returned w) /\
+  a mod A = 0 /\ beg (fst bk) <= a /\ a + B <= beg (fst bk) + size /\ (a + B <= a' \/ a' + B <= a).
+Proof. exact PoolAddr.live_blocks_disjoint_all_histories. Qed.
+Print Assumptions C09_live_blocks_disjoint_aligned_inside_all_histories.
